@@ -312,6 +312,23 @@ def run(ctx, env, drivers_ok):
               n_be, n_be)
 
     # ================================================================== FX double digital and FX digital
+    # regression witness of the FIXED finding C11/fx-double-digital-domestic-payout-foreign-discount (must PASS; on a tree without the
+    # fix it is a VIOLATION): EURUSD, USD premium, S=1.20, K=[1.10, 1.30], r_d=5 %, r_f=1 %, vol 15 %, 1y -> 0.393497727852
+    wvd = Date(1, 6, 2021)
+    wdd, wff = curves(wvd, 0.05, 0.01, DayCountTypes.ACT_365F)
+    wo = FXDoubleDigitalOption(Date(1, 6, 2022), 1.30, 1.10, 'EURUSD', 1.0, 'USD')
+    wv = float(wo.value(wvd, 1.20, wdd, wff, BlackScholes(0.15)))
+    wsd = 0.15
+    wd2 = [(math.log(1.20 / kk) + (0.05 - 0.01 - 0.15 * 0.15 / 2)) / wsd for kk in (1.10, 1.30)]
+    wex = math.exp(-0.05) * (norm.cdf(-wd2[1]) - norm.cdf(-wd2[0]))
+    if abs(wv - wex) > 2e-7:
+        viol('FX double digital value != discounted probability-weighted payout in the premium currency',
+             {'witness': True, 'value_dt': '01-JUN-2021', 'expiry_dt': '01-JUN-2022', 's': 1.20, 'k_lower': 1.10, 'k_upper': 1.30, 'r_dom': 0.05,
+              'r_for': 0.01, 'vol': 0.15, 'notional': 1.0, 'prem_currency': 'USD', 'pair': 'EURUSD', 'value': wv, 'expectation': wex},
+             'value=expectation',
+             finding=('C11/fx-double-digital-domestic-payout-foreign-discount'
+                      if abs(wv - math.exp(-0.01) * (norm.cdf(-wd2[1]) - norm.cdf(-wd2[0]))) <= 2e-7 else None))
+    ctx.count('FX double digital: regression witness of the repaired domestic-discount finding', 1, 1)
     rng = ctx.rng('fx-digital')
     n_d = 120 if quick else 2000
     for i in range(n_d):
